@@ -110,9 +110,58 @@ def emit_pool(repo: Path, status: dict, flags: dict) -> None:
         flags["gen_pool_shape"] = False; status["gen_pool_shape"] = f"ERROR: {e}"
 
 
+EXPECT_ENUM = {"MetaEnum.__contains__": ["try: cls(item) except ValueError: return False", "return True"],
+               "ModeSolver": ["SERIAL = 'serial'", "THREAD = 'thread'", "PROCESS = 'process'"]}
+
+
+def emit_enum(repo: Path, status: dict, flags: dict) -> None:
+    """`x in ModeSolver` is exactly `ModeSolver(x) succeeds` (the model uses ONE predicate `valid` for the membership test of the constructor and for the
+    conversion in __get_mode__ / optimize), and the enum has exactly the three documented values"""
+    try:
+        tree = ast.parse((repo / "pyvolutionary" / "enums.py").read_text())
+        cl = {c.name: c for c in tree.body if isinstance(c, ast.ClassDef)}
+        changed = []
+        m = method(tree, "MetaEnum", "__contains__")
+        if m is None or body_text(m) != EXPECT_ENUM["MetaEnum.__contains__"]: changed.append("MetaEnum.__contains__")
+        ms = cl.get("ModeSolver")
+        if ms is None or body_text(ms) != EXPECT_ENUM["ModeSolver"] or [ast.unparse(b) for b in ms.bases] != ["Enum"]: changed.append("ModeSolver")
+        en = cl.get("Enum")
+        if en is None or not any(k.arg == "metaclass" and ast.unparse(k.value) == "MetaEnum" for k in en.keywords): changed.append("Enum metaclass")
+        flags["gen_enum_shape"] = not changed
+        status["gen_enum_shape"] = "regenerated" if not changed else "UNSUPPORTED: changed: " + ", ".join(changed)
+    except Exception as e:
+        flags["gen_enum_shape"] = False; status["gen_enum_shape"] = f"ERROR: {e}"
+
+
+def emit_bounds_fresh(repo: Path, status: dict, flags: dict) -> None:
+    """Task.get_bounds() returns freshly built arrays on every path: each `return` is a tuple of np.array(<list built in this call>) - never an attribute, a
+    cached object or np.asarray(...) of something obtained elsewhere (optimizers edit the returned bounds in place: Ant Lion)"""
+    try:
+        tree = ast.parse((repo / "pyvolutionary" / "models.py").read_text())
+        fn = method(tree, "Task", "get_bounds")
+        bad = []
+        if fn is None: bad.append("Task.get_bounds not found")
+        else:
+            fresh_lists = {t.id for st in ast.walk(fn) if isinstance(st, ast.Assign) and isinstance(st.value, ast.List) and not st.value.elts
+                           for t in st.targets if isinstance(t, ast.Name)}
+            rets = [n for n in ast.walk(fn) if isinstance(n, ast.Return)]
+            if not rets: bad.append("no return")
+            for rt in rets:
+                ok = isinstance(rt.value, ast.Tuple) and len(rt.value.elts) == 2 and all(
+                    isinstance(e, ast.Call) and ast.unparse(e.func) == "np.array" and len(e.args) == 1 and not e.keywords
+                    and isinstance(e.args[0], ast.Name) and e.args[0].id in fresh_lists for e in rt.value.elts)
+                if not ok: bad.append("return " + ast.unparse(rt.value)[:60])
+        flags["gen_task_bounds_fresh"] = not bad
+        status["gen_task_bounds_fresh"] = "regenerated" if not bad else "UNSUPPORTED: " + "; ".join(bad)
+    except Exception as e:
+        flags["gen_task_bounds_fresh"] = False; status["gen_task_bounds_fresh"] = f"ERROR: {e}"
+
+
 def emit(repo: Path, status: dict) -> None:
     flags = {}
+    emit_bounds_fresh(repo, status, flags)
     emit_multi(repo, status, flags)
+    emit_enum(repo, status, flags)
     emit_pool(repo, status, flags)
     try:
         tree = ast.parse((repo / "pyvolutionary" / "hypertuner.py").read_text())
